@@ -501,10 +501,17 @@ class IPPO(MultiAgentRLAlgorithm):
         :return: Preprocessed inputs
         :rtype: ExperiencesType
         """
+        # Every component is grouped in agent_ids order, so that the agents of a group are
+        # stacked alike whatever the key order of the individual dictionaries
         shared = {homo_id: {} for homo_id in self.shared_agent_ids}
-        for agent_id, inp in input.items():
+        for agent_id in self.agent_ids:
+            if agent_id not in input:
+                continue
+
             homo_id = self.get_homo_id(agent_id)
-            shared[homo_id][agent_id] = stack_experiences(inp, to_torch=False)[0]
+            shared[homo_id][agent_id] = stack_experiences(
+                input[agent_id], to_torch=False
+            )[0]
 
         return shared
 
